@@ -6,6 +6,18 @@
 //! then the families "ids above one" (FM), "negative weight at position j" (VnBest, i64 and
 //! f64), "order above the maximum" (HilbertCurve), "id = usize::MAX" (VnBest / VnFirst) and
 //! well-formed controls.  Every remaining choice comes from the per-case fork of the PRNG.
+//!
+//! LARGE calls: with `k = idx / 11`, the slots `k % 11 == 10` hold inputs of 4095 .. 10000
+//! elements (lengths around the multiples of 1024 and 4096: 4097, 5000, 8191, 8193, 9001, ..)
+//! with exactly ONE offending element -- a negative weight (VnBest), an id above one (FM), one
+//! input whose length is off by one / rounded to a block / empty (the nine algorithms), an order
+//! above the maximum (HilbertCurve) -- placed at the last position, inside the trailing
+//! `len % 1024` positions, at the block seams (1023, 1024, 4095, 4096, last full block) or
+//! anywhere; the other slots are the small stream above (`k` renumbered without the large slots).
+//! A large case is written to the case file in a COMPACT form (`big20`, Run/RunC20.v): run-length
+//! encoded weight signs and array, and the list of positions at which the array after the call
+//! differs from the array before (the only thing computed here is that comparison; the Coq side
+//! rebuilds both arrays and judges them with the same `eval20` as a small case).
 use coupe::sprs::CsMat;
 use coupe::Partition as _;
 use coupe::{Point2D, Point3D};
@@ -71,6 +83,9 @@ struct Case {
     iter_count: usize,
     /// 0: tolerance 0.05 / max_imbalance Some(0.5); 1: tolerance 0.0 / max_imbalance None; 2: negative tolerance / Some(0.0)
     tol_kind: usize,
+    /// a large call (compact output); `note` says how the input was built (replay JSON)
+    large: bool,
+    note: String,
 }
 
 /// (code, a, b) in the numbering of Lib/Report.v `impl_res`
@@ -160,7 +175,14 @@ fn gen_case(idx: usize, r: &mut Rng) -> Case {
         order: 12,
         iter_count: *r.pick(&[0usize, 0, 1, 2]),
         tol_kind: r.below(3) as usize,
+        large: false,
+        note: String::new(),
     };
+    if k % 11 == 10 {
+        gen_large(&mut c, k / 11, r);
+        return c;
+    }
+    let k = (k / 11) * 10 + k % 11; // the small stream, numbered without the large slots
     if alg >= 9 {
         // HilbertCurve: orders above the maximum (lengths always consistent: the length clause
         // of the property does not cover HilbertCurve)
@@ -295,6 +317,214 @@ fn gen_case(idx: usize, r: &mut Rng) -> Case {
     c
 }
 
+// ------------------------------------------------------------------ large calls
+
+/// lengths around the multiples of 1024 and 4096 (and a few in between)
+const LARGE_LENS: [usize; 18] =
+    [4095, 4096, 4097, 5000, 5119, 5120, 5121, 6143, 6145, 7169, 8191, 8192, 8193, 9001, 9217, 9999, 10000, 4100];
+const POS_KINDS: usize = 12;
+
+fn large_len(r: &mut Rng) -> usize {
+    if r.chance(1, 5) {
+        r.range(4096, 10000) as usize
+    } else {
+        *r.pick(&LARGE_LENS)
+    }
+}
+
+/// Position of the single offending element in an input of `n >= 4095` elements.
+fn offending_pos(kind: usize, n: usize, r: &mut Rng) -> (usize, &'static str) {
+    let rem = n % 1024;
+    // first position of the trailing partial block (of the last block when n is a multiple of 1024)
+    let tail0 = if rem > 0 { n - rem } else { n - 1024 };
+    match kind % POS_KINDS {
+        0 => (n - 1, "last"),
+        1 => (tail0 + r.below((n - tail0) as u64) as usize, "in the trailing len % 1024 positions"),
+        2 => (tail0, "first position after the last multiple of 1024"),
+        3 => (n - 2, "last but one"),
+        4 => (tail0 - 1, "last position of the last full block"),
+        5 => (1023, "seam 1023"),
+        6 => (1024, "seam 1024"),
+        7 => (4095.min(n - 1), "seam 4095"),
+        8 => (4096.min(n - 1), "seam 4096"),
+        9 => (0, "first"),
+        10 => {
+            let m = (n / 4096) * 4096;
+            ((m.max(1) - r.below(2) as usize).min(n - 1), "seam at the last multiple of 4096")
+        }
+        _ => (r.below(n as u64) as usize, "anywhere"),
+    }
+}
+
+/// A length that differs from `n`: off by one, rounded to a block, empty, anything.
+fn other_len(n: usize, r: &mut Rng) -> (usize, &'static str) {
+    match r.below(8) {
+        0 => (n - 1, "n-1"),
+        1 => (n + 1, "n+1"),
+        2 => (if n % 1024 > 0 { n - n % 1024 } else { n - 1024 }, "n rounded down to a multiple of 1024"),
+        3 => ((n / 1024 + 1) * 1024, "n rounded up to the next multiple of 1024"),
+        4 => (if n % 4096 > 0 { n - n % 4096 } else { n - 4096 }, "n rounded down to a multiple of 4096"),
+        5 => (0, "empty"),
+        6 => (n + 1 + r.below(3000) as usize, "longer"),
+        _ => (r.range(1, n as i64 - 1) as usize, "shorter"),
+    }
+}
+
+/// The `s`-th large slot of entry point `c.alg`.
+fn gen_large(c: &mut Case, s: usize, r: &mut Rng) {
+    let alg = c.alg;
+    c.large = true;
+    let n = large_len(r);
+    if alg >= 9 {
+        // HilbertCurve: InvalidOrder depends on the parameter only; large consistent inputs
+        let max: u32 = if alg == 9 { 32 } else { 21 };
+        c.order = match s % 3 {
+            0 => max + 1,
+            1 => max + 2 + r.below(100) as u32,
+            _ => u32::MAX - r.below(2) as u32,
+        };
+        c.part_count = *r.pick(&[0usize, 1, 2, 3, 1000]);
+        let plen = if r.chance(1, 6) { 0 } else { n };
+        c.p0 = (0..plen).map(|i| usize::MAX - 3 * (i / 1024)).collect();
+        c.weights = Weights::F((0..n).map(|i| (1 + i % 7) as f64).collect());
+        c.npoints = n;
+        c.family = "large_order_above_max".into();
+        c.note = format!("{} points, weights 1+i%7, order {}", n, c.order);
+        return;
+    }
+    let has_second = matches!(alg, 0 | 1 | 7 | 8);
+    let fam = match alg {
+        5 => match s % 4 {
+            3 => {
+                if (s / 4) % 2 == 0 {
+                    "large_len_mismatch"
+                } else {
+                    "large_all_zero"
+                }
+            }
+            _ => "large_negative_weight",
+        },
+        7 => {
+            if s % 2 == 0 {
+                "large_ids_above_one"
+            } else {
+                "large_len_mismatch"
+            }
+        }
+        _ => "large_len_mismatch",
+    };
+    c.family = fam.into();
+    c.part_count = *r.pick(&[2usize, 2, 3, 5]);
+    let (mut plen, mut wlen, mut slen) = (n, n, n);
+    let zero_ok = matches!(alg, 2 | 3 | 4 | 5 | 6);
+    let mut note = format!(
+        "n = {}; weights[i] = {}; partition in blocks (see partition_runs)",
+        n,
+        if fam == "large_all_zero" {
+            "0"
+        } else if zero_ok {
+            "1 + i % 7, but 0 when (i / 300) % 3 == 2"
+        } else {
+            "1 + i % 7"
+        }
+    );
+    if fam == "large_len_mismatch" {
+        // exactly one length is off (now and then two)
+        let victims: usize = if has_second { 3 } else { 2 };
+        let first = r.below(victims as u64) as usize;
+        let twice = r.chance(1, 5);
+        for v in 0..victims {
+            if v == first || (twice && v == (first + 1) % victims) {
+                let (l, how) = other_len(n, r);
+                match v {
+                    0 => plen = l,
+                    1 => wlen = l,
+                    _ => slen = l,
+                }
+                note += &format!("; {} length {} ({})", ["partition", "weights", "second input"][v], l, how);
+            }
+        }
+    }
+    if fam == "large_len_mismatch" && plen == wlen && (!has_second || plen == slen) {
+        // two victims that happen to agree: keep it a mismatch (no large run of the algorithm proper)
+        wlen = plen + 1;
+        note += &format!("; weights length {} (partition + 1)", wlen);
+    }
+    let wellformed = plen == wlen && (!has_second || plen == slen);
+    // weights: blocks of 300 positive values 1 + i % 7, every third block zero where zeros are allowed
+    let mut ws: Vec<i64> = (0..wlen)
+        .map(|i| if fam == "large_all_zero" || (zero_ok && (i / 300) % 3 == 2) { 0 } else { 1 + (i % 7) as i64 })
+        .collect();
+    c.weights = Weights::I(ws.clone());
+    if alg <= 1 {
+        c.npoints = slen;
+    }
+    if alg >= 7 {
+        c.nadj = slen;
+    }
+    // the caller's array, in blocks (so that its run-length encoding stays short)
+    let reads_ids = matches!(alg, 5 | 6 | 7 | 8);
+    c.p0 = if !reads_ids {
+        (0..plen).map(|i| usize::MAX - 3 * (i / 1024)).collect()
+    } else if wellformed || r.chance(1, 3) {
+        let parts = if matches!(alg, 7 | 8) { 2 } else { 3 };
+        (0..plen).map(|i| (i / 512) % parts).collect()
+    } else {
+        (0..plen).map(|i| 40000 + 7 * (i / 1024)).collect()
+    };
+    if fam == "large_ids_above_one" {
+        let u = s / 2;
+        let (j, how) = offending_pos(u, n, r);
+        c.p0[j] = match r.below(3) {
+            0 => 2,
+            1 => 2 + r.below(5) as usize,
+            _ => usize::MAX - r.below(3) as usize,
+        };
+        note += &format!("; the only id above one: partition[{}] = {} ({})", j, c.p0[j], how);
+    }
+    if fam == "large_negative_weight" {
+        let u = (s / 4) * 3 + s % 4;
+        let (j, how) = offending_pos(u, n, r);
+        if r.chance(1, 2) {
+            let mut f: Vec<f64> = ws.iter().map(|w| if *w == 0 { 0.0 } else { *w as f64 + 0.5 }).collect();
+            f[j] = *r.pick(&[-1.0, -0.5, -1e-300, -1e300, f64::NEG_INFINITY]);
+            note += &format!("; f64 weights (i64 pattern + 0.5); the only negative weight: weights[{}] = {:?} ({})", j, f[j], how);
+            c.weights = Weights::F(f);
+        } else {
+            ws[j] = *r.pick(&[-1, -2, -1000, i64::MIN]);
+            note += &format!("; the only negative weight: weights[{}] = {} ({})", j, ws[j], how);
+            c.weights = Weights::I(ws.clone());
+        }
+    }
+    c.note = note;
+}
+
+/// run-length encoding
+fn rle<T: PartialEq + Copy>(xs: &[T]) -> Vec<(T, usize)> {
+    let mut out: Vec<(T, usize)> = Vec::new();
+    for x in xs {
+        match out.last_mut() {
+            Some((y, n)) if *y == *x => *n += 1,
+            _ => out.push((*x, 1)),
+        }
+    }
+    out
+}
+fn unrle<T: Copy>(rs: &[(T, usize)]) -> Vec<T> {
+    rs.iter().flat_map(|(x, n)| std::iter::repeat(*x).take(*n)).collect()
+}
+/// the positions at which `after` differs from `before`, with the new value (same lengths: the
+/// callee only ever holds a `&mut [usize]`)
+fn changed_positions(before: &[usize], after: &[usize]) -> Vec<(usize, usize)> {
+    assert_eq!(before.len(), after.len());
+    (0..before.len()).filter(|i| before[*i] != after[*i]).map(|i| (i, after[i])).collect()
+}
+/// `[(a,n%N);..]`: a list of pairs whose second component is a binary number (`na`: so is the first)
+fn coq_pairs<A: std::fmt::Display, B: std::fmt::Display>(xs: &[(A, B)], na: bool) -> String {
+    let sfx = if na { "%N" } else { "" };
+    format!("[{}]", xs.iter().map(|(a, b)| format!("({}{},{}%N)", a, sfx, b)).collect::<Vec<_>>().join(";"))
+}
+
 fn run_impl(c: &Case, r: &mut Rng) -> (Guarded<Outcome>, Vec<usize>) {
     let cell = Arc::new(Mutex::new(c.p0.clone()));
     let cell2 = cell.clone();
@@ -406,24 +636,7 @@ fn main() {
                 _ => "WPos",
             })
             .collect();
-        let impl_coq = match &res {
-            Guarded::Done(Ok(())) => format!("(IOk {})", coq_nlist(after.iter().map(|x| *x as u128))),
-            Guarded::Done(Err((code, x, y))) => format!("(IErr {} {} {})", code, x, y),
-            Guarded::Panic(_) => "IPanic".to_string(),
-            Guarded::Hang => "IHang".to_string(),
-        };
-        let coq = format!(
-            "mk20 {} [{}] {} {} {} {} {} {} {}",
-            c.alg,
-            coq_signs.join(";"),
-            c.npoints,
-            c.nadj,
-            c.part_count,
-            c.order,
-            coq_nlist(c.p0.iter().map(|x| *x as u128)),
-            impl_coq,
-            coq_nlist(after.iter().map(|x| *x as u128))
-        );
+        let sign_s: String = signs.iter().collect();
         let impl_json = match &res {
             Guarded::Done(Ok(())) => "{\"ok\":true}".to_string(),
             Guarded::Done(Err((code, x, y))) => format!("{{\"err\":[{},{},{}]}}", code, x, y),
@@ -431,26 +644,103 @@ fn main() {
             Guarded::Hang => "{\"hang\":true}".to_string(),
         };
         let kf = ""; // no open known finding (Rib's empty-points defect was repaired by f977178)
-        let json = format!(
-            "{{\"alg\":{},\"partition\":{},\"weights\":{},\"points_len\":{},\"adjacency_len\":{},\"part_count\":{},\"order\":{},\"iter_count\":{},\"tol_kind\":{},\"impl\":{},\"partition_after\":{}{}}}",
-            json_str(NAMES[c.alg]),
-            json_usizes(&c.p0),
-            c.weights.json(),
-            c.npoints,
-            c.nadj,
-            c.part_count,
-            c.order,
-            c.iter_count,
-            c.tol_kind,
-            impl_json,
-            json_usizes(&after),
-            kf
-        );
-        let sign_s: String = signs.iter().collect();
-        let key = format!(
-            "{}|{:?}|{}|{}|{}|{}|{}|{}|{}",
-            c.alg, c.p0, sign_s, c.npoints, c.nadj, c.part_count, c.order, c.iter_count, c.tol_kind
-        );
+        let (coq, json, key);
+        if c.large {
+            // compact form: run-length encodings + the positions where the array changed.  Only the
+            // comparison before/after is made here; `big20` rebuilds both arrays and `eval20` judges.
+            let sign_runs = rle(&coq_signs);
+            let p0_runs = rle(&c.p0);
+            let changed = changed_positions(&c.p0, &after);
+            assert!(unrle(&sign_runs) == coq_signs && unrle(&p0_runs) == c.p0, "run-length encoding does not round-trip");
+            let kind = match &res {
+                Guarded::Done(Ok(())) => "KOk".to_string(),
+                Guarded::Done(Err((code, x, y))) => format!("(KErr {} {} {})", code, x, y),
+                Guarded::Panic(_) => "KPanic".to_string(),
+                Guarded::Hang => "KHang".to_string(),
+            };
+            coq = format!(
+                "big20 {} {} {} {} {} {} {} {} {}",
+                c.alg,
+                coq_pairs(&sign_runs, false),
+                c.npoints,
+                c.nadj,
+                c.part_count,
+                c.order,
+                coq_pairs(&p0_runs, true),
+                kind,
+                coq_pairs(&changed, true)
+            );
+            let shown: Vec<String> = changed.iter().take(40).map(|(i, v)| format!("[{},{}]", i, v)).collect();
+            json = format!(
+                "{{\"alg\":{},\"large\":{},\"partition_len\":{},\"partition_runs\":{},\"weights_len\":{},\"weight_sign_runs\":{},\"points_len\":{},\"adjacency_len\":{},\"part_count\":{},\"order\":{},\"iter_count\":{},\"tol_kind\":{},\"impl\":{},\"partition_changed_positions\":{},\"partition_changed\":[{}]{}}}",
+                json_str(NAMES[c.alg]),
+                json_str(&c.note),
+                c.p0.len(),
+                json_str(&coq_pairs(&p0_runs, true)),
+                c.weights.len(),
+                json_str(&coq_pairs(&sign_runs, false)),
+                c.npoints,
+                c.nadj,
+                c.part_count,
+                c.order,
+                c.iter_count,
+                c.tol_kind,
+                impl_json,
+                changed.len(),
+                shown.join(","),
+                kf
+            );
+            key = format!(
+                "{}|{}|{}|{}|{}|{}|{}|{}|{}",
+                c.alg,
+                coq_pairs(&p0_runs, true),
+                coq_pairs(&sign_runs, false),
+                c.npoints,
+                c.nadj,
+                c.part_count,
+                c.order,
+                c.iter_count,
+                c.tol_kind
+            );
+        } else {
+            let impl_coq = match &res {
+                Guarded::Done(Ok(())) => format!("(IOk {})", coq_nlist(after.iter().map(|x| *x as u128))),
+                Guarded::Done(Err((code, x, y))) => format!("(IErr {} {} {})", code, x, y),
+                Guarded::Panic(_) => "IPanic".to_string(),
+                Guarded::Hang => "IHang".to_string(),
+            };
+            coq = format!(
+                "mk20 {} [{}] {} {} {} {} {} {} {}",
+                c.alg,
+                coq_signs.join(";"),
+                c.npoints,
+                c.nadj,
+                c.part_count,
+                c.order,
+                coq_nlist(c.p0.iter().map(|x| *x as u128)),
+                impl_coq,
+                coq_nlist(after.iter().map(|x| *x as u128))
+            );
+            json = format!(
+                "{{\"alg\":{},\"partition\":{},\"weights\":{},\"points_len\":{},\"adjacency_len\":{},\"part_count\":{},\"order\":{},\"iter_count\":{},\"tol_kind\":{},\"impl\":{},\"partition_after\":{}{}}}",
+                json_str(NAMES[c.alg]),
+                json_usizes(&c.p0),
+                c.weights.json(),
+                c.npoints,
+                c.nadj,
+                c.part_count,
+                c.order,
+                c.iter_count,
+                c.tol_kind,
+                impl_json,
+                json_usizes(&after),
+                kf
+            );
+            key = format!(
+                "{}|{:?}|{}|{}|{}|{}|{}|{}|{}",
+                c.alg, c.p0, sign_s, c.npoints, c.nadj, c.part_count, c.order, c.iter_count, c.tol_kind
+            );
+        }
         // non-trivial: some clause of the property applies to the call
         let n = c.p0.len();
         let mism = match c.alg {
